@@ -205,7 +205,7 @@ func (f *FS) event(op, p string) (*IOEvent, *Fault) {
 	r := active.Load()
 	seq := len(f.Events) + 1
 	if seq > f.MaxIO {
-		panic(BudgetExceeded{"io-events", uint64(seq)})
+		panic(BudgetExceeded{"io-events", uint64(seq), op + " " + p})
 	}
 	site := ""
 	if !f.NoLog {
